@@ -1331,14 +1331,14 @@ import pfhedge.nn as pnn
 from pfhedge.instruments import BrownianStock, EuropeanOption, LookbackOption
 torch.manual_seed(3)
 bad = []
-for prev in (False, True):
-    for H in (1, 2):
-        und = BrownianStock(sigma=0.3, dt=0.01, cost=1e-3); d = EuropeanOption(und, strike=1.02, maturity=0.05)
+for (prev, H, c1, c2) in [(p_, h_, a_, b_) for p_ in (False, True) for h_ in (1, 2) for (a_, b_) in ((1e-3, 5e-3), (0.0, 5e-3), (1e-3, 0.0)) if h_ == 2 or b_ == 5e-3]:
+    if True:
+        und = BrownianStock(sigma=0.3, dt=0.01, cost=c1); d = EuropeanOption(und, strike=1.02, maturity=0.05)
         d.add_clause("cap", lambda dd, payoff: payoff.clamp(max=0.03) + 0.01)
         d.simulate(n_paths=6)
         hl = [und]
         if H == 2:
-            lb = LookbackOption(und, strike=1.0, maturity=0.05); lb.list(lambda dd: dd.ul().spot * 0.4 + 0.2, cost=5e-3); hl.append(lb)
+            lb = LookbackOption(und, strike=1.0, maturity=0.05); lb.list(lambda dd: dd.ul().spot * 0.4 + 0.2, cost=c2); hl.append(lb)
         feats = ["log_moneyness", "time_to_maturity"] + (["prev_hedge"] if prev else [])
         hedger = pnn.Hedger(torch.nn.Sequential(torch.nn.Linear(2 + (H if prev else 0), H), torch.nn.Tanh()), feats)
         unit = hedger.compute_hedge(d, hedge=hl).detach()
@@ -1351,7 +1351,7 @@ for prev in (False, True):
                 for t in range(s.size(1) - 1):
                     ref += unit[:, h, t] * (s[:, t + 1] - s[:, t]) - inst.cost * (unit[:, h, t + 1] - unit[:, h, t]).abs() * s[:, t + 1]
                 ref -= inst.cost * unit[:, h, 0].abs() * s[:, 0]
-            if not torch.allclose(got, ref, atol=1e-6): bad.append((prev, H, which, float((got - ref).abs().max())))
+            if not torch.allclose(got, ref, atol=1e-6): bad.append((prev, H, (c1, c2), which, float((got - ref).abs().max())))
 result = {"got": [str(b) for b in bad], "ref": []}
 '''
 
@@ -1359,7 +1359,7 @@ result = {"got": [str(b) for b in bad], "ref": []}
 def _replay_pl():
     r = real_exec(PL_REPLAY, {}, timeout=300)
     ok = r.get('ok') and r['result']['got'] == []
-    return {'real': r, 'confirmed': not ok, 'note': 'replay: compute_pl / compute_portfolio against a loop reference (H=1,2 incl. a listed derivative as hedge, a payoff clause, with/without prev_hedge)'}
+    return {'real': r, 'confirmed': not ok, 'note': 'replay: compute_pl / compute_portfolio against a loop reference (H=1,2 incl. a listed derivative as hedge, a payoff clause, with/without prev_hedge, all / some / one instrument(s) with transaction costs)'}
 
 
 def c01_obligations(seed, tier='quick'):
